@@ -1296,6 +1296,15 @@ static void initializer2(Token **rest, Token *tok, Initializer *init) {
     return;
   }
 
+  // The string literal may be enclosed in braces: `char s[] = {"abc"};`
+  if (init->ty->kind == TY_ARRAY && is_integer(init->ty->base) &&
+      equal(tok, "{") && tok->next->kind == TK_STR && is_end(tok->next->next)) {
+    string_initializer(&tok, tok->next, init);
+    consume(&tok, tok, ",");
+    *rest = skip(tok, "}");
+    return;
+  }
+
   if (init->ty->kind == TY_ARRAY) {
     if (equal(tok, "{"))
       array_initializer1(rest, tok, init);
